@@ -358,6 +358,59 @@ def banner(P, R):
     R.floor('C09.WIRE.1', 3)
 
 
+def word_parameters(P, R, rule='C09.FMT.3'):
+    """A message whose parameter is a bare word ("U <name>", "N <host>", "M <modes>" - a `%s` not introduced by a colon)
+    is only well formed when the word is there: the functions that send such a message with one of their own parameters
+    are called with a text known to be non-empty (a non-empty literal, or a first character tested against NUL on the
+    way to the call).  An empty word leaves "U 7 1.2.3.4 1234 " - a line the server's parser rejects."""
+    snd = core.sender(P)
+    wrappers = {}
+    for f in P.fns.values():
+        for s in f.calls('iauth_send'):
+            fmt = rules.fmt_literal(s.ev, 1) or ''
+            words = fmt.split(' ')
+            for j, w in enumerate(words[1:]):
+                if w == '%s' and j < len(s.ev['args']) - 2:
+                    a = s.ev['args'][2 + sum(1 for x in words[1:1 + j] if '%' in x)]
+                    if is_var(a) and a['name'] in f.params:
+                        wrappers.setdefault(f.key, []).append((f, f.params.index(a['name']), words[0]))
+    n = 0
+    for k, lst in sorted(wrappers.items()):
+        for f, pi, letter in lst:
+            for s in P.callers(f, may=True):
+                if s.fn.unit.startswith('tests/') or pi >= len(s.ev['args']):
+                    continue
+                a = s.ev['args'][pi]
+                ok = False
+                why = sx(a)
+                if isinstance(a, dict) and a.get('k') == 'str':
+                    ok = len(a.get('v', '')) > 0
+                elif is_var(a) and a['name'] in s.fn.params:
+                    ok = True       # passed on: judged at that function's own callers
+                    if s.fn.key not in wrappers:
+                        wrappers.setdefault(s.fn.key, [])
+                elif not any(isinstance(x, dict) and x.get('k') == 'mem' and x.get('rec') == core.REQ_REC for x in walk(a)):
+                    # not client data: a configured name, a tag the writer formatted into a local buffer
+                    R.ob(rule, True, s, 'the word sent as the parameter of the "%s" message is the daemon\'s own text (%s)' % (letter, why), key='word-param-own:%s' % f.name, nontrivial=False)
+                    continue
+                else:
+                    base, off = a, None
+                    if isinstance(a, dict) and a.get('k') == 'bin' and a.get('op') == '+':
+                        base, off = a.get('l'), a.get('r')
+                    for g in s.fn.guards(s.bid):
+                        l = g[0]
+                        first = False
+                        if isinstance(l, dict) and l.get('k') == 'idx' and sx(l.get('base')) == sx(base) and (sx(l.get('index')) == sx(off) if off is not None else const_of(l.get('index')) == 0):
+                            first = True
+                        if isinstance(l, dict) and l.get('k') == 'un' and l.get('op') == '*' and sx(l.get('e')) == sx(a):
+                            first = True
+                        if first and ((g[1] == '!=' and const_of(g[2]) == 0) or (g[1] == '==' and isinstance(const_of(g[2]), int) and const_of(g[2]) != 0)):
+                            ok = True
+                n += 1
+                R.ob(rule, ok, s, 'the word sent as the parameter of the "%s" message is known to be non-empty (%s)' % (letter, why), key='word-param:%s' % f.name)
+    R.floor(rule, 2, 'calls of the one-word message senders')
+
+
 def run(P, R, tier):
     stdout_writers(P, R)
     verbosity(P, R)
@@ -398,4 +451,5 @@ def run(P, R, tier):
     # account, names) runs past its member into the address text next to it
     from .. import bnd as _bnd
     _bnd.check_scope(P, R, 'C09.BND.2', _bnd.reader_scope(P))
+    word_parameters(P, R)
     return EXPLANATION, ASSUMPTIONS
